@@ -104,7 +104,7 @@ def step (line : String) : String :=
       let d ← Proto.untext? d; let r ← Proto.untext? r; let ix ← Proto.untext? ix
       let pi ← Proto.untext? pi; let k1 ← parseKind k1; let k2 ← parseKind k2
       let i : StaticIn := ⟨m, mo, se, d, r, ix, pi⟩
-      let first : Option Str := (staticDir i).map fun dir => join dir (staticBranch unquote i)
+      let first : Option Str := (staticDir i).map fun dir => staticTarget (join dir (staticBranch unquote i))
       let fs : Str → Kind := fun p => if some p = first then k1 else k2
       pure (staticdir unquote fs i)) with
     | some res => s!"O={showOutcome res.outcome} {showAcc res.accesses}"
